@@ -34,6 +34,7 @@ import CtyModel.Lemmas.PathFnsTie
 import CtyModel.Lemmas.d19bVisits
 import CtyModel.Lemmas.d19bSetPaths
 import CtyModel.Lemmas.d19bPathSet
+import CtyModel.Lemmas.d19bKeys
 import CtyModel.Props.C03
 namespace CtyModel
 namespace C19
@@ -317,8 +318,8 @@ strings — marked or not, since 9ae0f30 drops the marks before the comparison i
 read: `Equivalent` is reflexive, symmetric and transitive, and equivalent paths
 hash alike (the hash writes the same bytes: attribute names, `#` for every index
 step).  A key and the same key with marks are equivalent (`keyEq` looks under the
-marker).  Unknown keys remain outside (next theorem); so do null keys and keys
-of compound type (no `Equals`-equivalence theorem for them yet). -/
+marker).  Unknown keys remain outside (next theorem); null keys and keys of compound
+type are covered by `pathset_rules_lawful_wide` (slice d19b). -/
 theorem pathset_rules_lawful : PathSet.goodRules.Lawful := PathSet.goodRules_lawful
 
 /-- Reflexivity fails for a path with an unknown key (`Equals` of an unknown with
@@ -1104,6 +1105,75 @@ example : (PathSet.psRun PathSet.goodRules PathSet.prefixesG
     [.set (.add 0 ⟨[.index (Value.intVal 1)], rfl⟩), .set (.union 2 0 1), .set (.add 2 ⟨[.index (Value.intVal 2)], rfl⟩),
      .set (.has 0 ⟨[.index (Value.intVal 2)], rfl⟩), .set (.has 2 ⟨[.index (Value.intVal 1)], rfl⟩)] []).2 =
     [.none, .none, .none, .bool false, .bool true] := by decide
+
+/-! ### PathSet over null keys and keys of compound type (the old frontier) -/
+
+/-- **`pathSetRules` is lawful on every path whose index keys, marks removed at every
+depth, are wholly known values of a type without set and capsule types**
+(`PathSet.keysWideM`): known numbers and strings (the `keysOk` carrier of
+`pathset_rules_lawful`, contained in this one: `pathset_wide_contains_good`), NULL keys
+of any such type, and keys of COMPOUND type — lists, maps, tuples, objects, nested,
+with nulls inside, marked anywhere or not.  `Equivalent` is reflexive, symmetric and
+transitive there and equivalent paths hash alike.  Two null keys are equivalent whatever
+their types (`Equals` of two nulls is true), a null key is equivalent to no other key,
+keys of different types are otherwise never equivalent, and keys of one type are
+equivalent exactly when `RawEquals` holds (C03 `equals_of_members`).  Still outside:
+unknown keys (the recorded finding) and keys that hold sets or capsules. -/
+theorem pathset_rules_lawful_wide :
+    PathSet.pathRules.LawfulOn (fun p => PathSet.keysWideM p = true) :=
+  PathSet.pathRules_lawfulOn_wideM
+
+theorem pathset_wide_contains_good (p : Path) (h : PathSet.keysOk p = true) :
+    PathSet.keysWideM p = true := PathSet.keysOk_wideM p h
+
+/-- **PathSet refines sets of paths for all histories over those paths** — the statement
+of `pathset_refines` on the wider carrier, for the same two functions
+(`wideRulesM` = `pathRules` on the subtype). -/
+theorem pathset_refines_wide (ops : List (PathSet.PSOp PathSet.WidePathM))
+    (st : List (SetImpl PathSet.WidePathM))
+    (h : ∀ i, SetImpl.Inv PathSet.wideRulesM (SetImpl.getReg st i)) :
+    let R := PathSet.wideRulesM
+    let out := PathSet.psRun R PathSet.prefixesWM ops st
+    (∀ i, SetImpl.Inv R (SetImpl.getReg out.1 i)) ∧
+    SetImpl.absRegs R out.1 = PathSet.psSpecRun R PathSet.prefixesWM ops (SetImpl.absRegs R st) ∧
+    PathSet.PSOutsOk R PathSet.prefixesWM (SetImpl.absRegs R st) ops out.2 := by
+  have hR := PathSet.wideRulesM_lawful
+  have hB : SetImpl.AllInv PathSet.wideRulesM st := fun j => (h j).toB hR
+  refine ⟨fun i => ((PathSet.allInv_psRun hR ops hB) i).toInv hR, ?_⟩
+  exact PathSet.psRun_refines hR ops hB
+
+/-- …`AddAllSteps` adds exactly the non-empty prefixes there too -/
+theorem pathset_addAllSteps_prefixes_wide (x q : PathSet.WidePathM) :
+    q ∈ PathSet.prefixesWM x ↔ ∃ n, 0 < n ∧ n ≤ x.1.length ∧ q.1 = x.1.take n := by
+  simp only [PathSet.prefixesWM, List.mem_map, List.mem_range]
+  constructor
+  · rintro ⟨i, hi, rfl⟩
+    exact ⟨i + 1, by omega, by omega, rfl⟩
+  · rintro ⟨n, h0, hn, hq⟩
+    refine ⟨n - 1, by omega, ?_⟩
+    apply Subtype.ext
+    simp only [hq]
+    congr 1
+    omega
+
+/-- null keys, a list key, a tuple key with a null inside, a marked list key: in the
+carrier; an unknown key and a set key: not -/
+example :
+    PathSet.keysWideM [.index (Value.null .number), .getAttr "a", .index (Value.null (.list .string))] = true ∧
+    PathSet.keysWideM [.index ⟨.list .string, .seq [.s "a"]⟩] = true ∧
+    PathSet.keysWideM [.index ⟨.tuple [.number, .string], .seq [.n (.fin false 1 0 64), .null]⟩] = true ∧
+    PathSet.keysWideM [.index ⟨.list .string, .marked ["m"] (.seq [.marked ["k"] (.s "a")])⟩] = true ∧
+    PathSet.keysWideM [.index (Value.unknown .number)] = false ∧
+    PathSet.keysWideM [.index ⟨.set .string, .sset [1] [.s "a"]⟩] = false := by decide
+/-- two nulls of different types are one key; `[1]` and `[1.0]` inside a tuple are one key;
+a marked list key and its plain twin are one key -/
+example :
+    PathSet.equiv [.index (Value.null .number)] [.index (Value.null .string)] = .ok true ∧
+    PathSet.equiv [.index (Value.null .number)] [.index (Value.intVal 0)] = .ok false ∧
+    PathSet.equiv [.index ⟨.tuple [.number], .seq [.n (.fin false 1 0 64)]⟩]
+      [.index ⟨.tuple [.number], .seq [.n (.fin false 1 0 512)]⟩] = .ok true ∧
+    PathSet.equiv [.index ⟨.list .string, .marked ["m"] (.seq [.marked ["k"] (.s "a")])⟩]
+      [.index ⟨.list .string, .seq [.s "a"]⟩] = .ok true := by decide
 
 end C19
 end CtyModel
